@@ -6,8 +6,9 @@ import mirsym1_models as MM
 from mirsym1 import *
 
 def load():
-    decls = Decls('/repo/jmespath')
-    prog = Program(open('/tmp/probe/mir2.txt').read(), decls)
+    import os
+    decls = Decls(os.environ.get('JM_SRC', '/repo/jmespath'))
+    prog = Program(open(os.environ.get('JM_MIR', '/tmp/probe/mir2.txt')).read(), decls)
     return prog
 
 def show_ast(v, ind=0):
